@@ -24,7 +24,7 @@ impl Property for C10 {
     }
 
     fn rule(&self) -> &'static str {
-        "case = (initial content, appended content, writer cut positions, per-event script of landings/EINTR/short reads, reader buffer capacity, read granularity, --head, iterator or whole FollowFileExecutor); generated swarm-style from mix(VERIF_SEED,'C10',index). Non-trivial iff >=1 append boundary fell strictly inside a line AND >=1 poll returned EOF with a partial line buffered; distinct by the hash of the schedule as experienced: (event kind, bytes served, bytes landed before it, fault) per seam event."
+        "case = (initial content, appended content, writer cut positions, per-event script of landings/EINTR/short reads, reader buffer capacity, read granularity, --head, iterator or whole FollowFileExecutor [SELECT input; for a quarter an aggregate whose refreshed tables must be the tables of growing prefixes: GROUP BY with COUNT, or STRING_AGG which shows arrival order]); generated swarm-style from mix(VERIF_SEED,'C10',index). Non-trivial iff >=1 append boundary fell strictly inside a line AND >=1 poll returned EOF with a partial line buffered; distinct by the hash of the schedule as experienced: (event kind, bytes served, bytes landed before it, fault) per seam event."
     }
 
     fn assumptions(&self) -> Vec<String> {
@@ -87,6 +87,8 @@ impl Property for C10 {
         json!({
             "prop": "C10",
             "mode": if exec_agg { "exec_agg" } else if exec { "exec" } else { "iter" },
+            // aggregate runs: half of them with an aggregate whose value shows the ORDER in which the lines arrived
+            "agg_in_order": rng.chance(1, 2),
             "head": head,
             "cap": cap,
             "initial": enc(&initial),
@@ -141,7 +143,15 @@ impl Property for C10 {
         let cuts = jusizes(case, "cuts");
         let chunks = gen::cut_chunks(&append, &cuts);
         let mode = if exec { Mode::FollowExec { head } } else { Mode::FollowIter { head, cap } };
-        let mut spec = WorldSpec::new(RAW_DEFS, if exec_agg { "SELECT x, COUNT(*) AS c FROM raw GROUP BY x" } else { "SELECT input FROM raw" }, mode);
+        let agg_in_order = exec_agg && jbool(case, "agg_in_order");
+        let stmt = if agg_in_order {
+            "SELECT STRING_AGG(x, '|') AS s, COUNT(*) AS c FROM raw"
+        } else if exec_agg {
+            "SELECT x, COUNT(*) AS c FROM raw GROUP BY x"
+        } else {
+            "SELECT input FROM raw"
+        };
+        let mut spec = WorldSpec::new(RAW_DEFS, stmt, mode);
         spec.files.push((FOLLOW_PATH.to_owned(), initial.clone()));
         spec.appends = chunks.clone();
         spec.steps = steps_from_json(case, "steps");
@@ -196,11 +206,21 @@ impl Property for C10 {
                 out.probe("exec_aggregate_skipped_midchar_start", 1);
                 return out;
             }
+            if agg_in_order && follow::start_candidates(&res.log, head).iter().any(|x0| complete_lines(&content[(*x0).min(content.len())..]).iter().any(|l| l.is_empty())) {
+                // STRING_AGG leaves out the delimiter while its accumulator is empty; what that does to empty values is
+                // not this property's business, so streams with empty lines are judged in the other modes only
+                out.probe("exec_aggregate_skipped_empty_line", 1);
+                return out;
+            }
             let mut verdict: Option<String> = None;
             let mut ok_any = false;
             for x0 in follow::start_candidates(&res.log, head) {
                 let lines = complete_lines(&content[x0.min(content.len())..]);
                 let render = |k: usize| -> Vec<String> {
+                    if agg_in_order {
+                        let joined: Vec<String> = lines[..k].iter().map(|l| String::from_utf8_lossy(l).into_owned()).collect();
+                        return vec![format!("s: '{}', c: {}", joined.join("|"), k)];
+                    }
                     let mut groups: std::collections::BTreeMap<Vec<u8>, usize> = std::collections::BTreeMap::new();
                     for l in &lines[..k] {
                         *groups.entry(l.clone()).or_insert(0) += 1;
@@ -244,6 +264,7 @@ impl Property for C10 {
                 out.violate("c10.wrong_item", format!("aggregate follow run: {}", verdict.unwrap_or_default()), features.clone());
             }
             out.probe("mode_exec_aggregate", 1);
+            out.probe("mode_exec_aggregate_order_sensitive", agg_in_order as u64);
             out.probe("preexisting_tail_with_head", (head && !initial.is_empty() && initial.last() != Some(&b'\n')) as u64);
             return out;
         }
